@@ -79,7 +79,10 @@ def dbg(msg):
     if os.environ.get('VERIF_DEBUG'):
         if _T0[0] is None:
             _T0[0] = time.time()
-        sys.stderr.write('[c13 %6.1fs] %s\n' % (time.time() - _T0[0], msg))
+        import resource
+        ch = resource.getrusage(resource.RUSAGE_CHILDREN)
+        sys.stderr.write('[c13 %6.1fs cpu: self %.1fs children %.1fs] %s\n' % (time.time() - _T0[0], time.process_time(),
+                                                                             ch.ru_utime + ch.ru_stime, msg))
 
 
 def pass_model_name(p):
@@ -235,14 +238,18 @@ def run(ctx):
     gen_by_name = {c["name"]: c for c in gen_cases}
     programs = hand + corp + [(c["name"], c["src"]) for c in gen_cases]
     passes = LOWERED + RAW
+    # quick tier: the single compaction passes other than CompactUnused find nothing to do on a module the lowerer has
+    # just compacted; generated programs get them as part of unused_pipeline and raw:lower_pipeline only
     gen_raw = RAW if ctx.thorough else ["raw:lower_pipeline"]
-    gen_general = [p for p in LOWERED if p not in c13gen.DXIL_STAGES] + gen_raw
+    gen_low = LOWERED if ctx.thorough else [p for p in LOWERED if p not in ("compact_expressions", "compact_constants",
+                                                                              "compact_types", "reorder_types", "dedup_emits")]
+    gen_general = [p for p in gen_low if p not in c13gen.DXIL_STAGES] + gen_raw
 
     def passes_of(name):
         c = gen_by_name.get(name)
         if c is None:
             return passes
-        return LOWERED + gen_raw if c["family"] == "loopfree" else gen_general
+        return gen_low + gen_raw if c["family"] == "loopfree" else gen_general
 
     def vkey(kind, p, name, detail=None):
         """violation key: hand-written and corpus programs are named; a generated program is described by the pass and
@@ -349,6 +356,7 @@ def run(ctx):
             tie_broken[(name, p)] = "first difference at %s: model %s, Go %s" % (d[0], json.dumps(d[1])[:200], json.dumps(d[2])[:200])
 
     # ---- hypotheses of the theorems on the modules seen
+    dbg('hypotheses: %d jobs' % len(hyp_jobs))
     hyp = {"modules": 0, "module_wf": 0, "module_known": 0, "calls_in_range": 0, "calls_closed": 0, "no_global_removed": 0}
     for name, h in zip(hyp_meta, L.run_model_parallel(exe, hyp_jobs, workers=W)):
         if not h.get("ok"):
@@ -360,6 +368,7 @@ def run(ctx):
             tie_broken[(name, "compact_unused")] = tie_broken.get((name, "compact_unused")) or \
                 "side condition calls_closed of c13_compact_unused_sound_partial is false on this module"
     ctx.cov["hypotheses"] = hyp
+    dbg('hypotheses done')
 
     # ---- V: differential execution
     run_jobs, run_meta = [], []
